@@ -169,7 +169,7 @@ Definition client_step (c : hcfg) (e : env) (s : hst) (o : hop) : hst * list hob
     if mem id (inflight s)
     then (set_inflight s (remove id (inflight s)), [OCallDone id (if ok then RReply else RServerErr)])
     else (s, [])                                    (* "No in-flight request found": ignored *)
-  | CWrong true => (s, [OCallDone 0%N ROther])
+  | CWrong true => (s, [OCallDone 0%N RServerErr])
   | _ => (s, [])
   end.
 
